@@ -179,7 +179,17 @@ func (r *Run) execInstr(fr *Frame, st *State, reach Term, ins ssa.Instruction, o
 		fr.regs[ins] = r.next(fr, st, ins)
 		return reach, false
 	case *ssa.Select:
-		fr.regs[ins] = r.freshTyped("select", ins.Type(), st)
+		v := r.freshTyped("select", ins.Type(), st)
+		if v.Kind == VTuple && len(v.Tup) > 0 && v.Tup[0].Kind == VTerm {
+			// the index of the case that fired: one of the states, or -1 (default) when non-blocking
+			idx := v.Tup[0].T
+			lo := mkInt(0)
+			if !ins.Blocking {
+				lo = mkInt(-1)
+			}
+			r.ctx.Assert(And(Le(lo, idx), Lt(idx, mkInt(int64(len(ins.States))))))
+		}
+		fr.regs[ins] = v
 		return reach, false
 	case *ssa.Send:
 		return reach, false
